@@ -30,7 +30,7 @@ func init() {
 func (c17) ID() string { return "C17" }
 func (c17) Rule() string {
 	return "one child process per IO configuration (unrestricted, restricted, empty-only, each with load/save enabled or disabled; the configuration is fixed per process), with its working directory inside a scratch tree seeded with canary files " +
-		"(../outside.gr, sub/inner.gr, a.gr, .gr, x.txt, an absolute-path target), each holding a unique marker binding. EVERY name of length <=3 (thorough: <=5) over the symbols {a Z 1 _ . / \\ NUL space ~ 0xC3 and .gr as one symbol}, with and without a final .gr, is passed to save() then load() and in the reverse order, twice. " +
+		"(../outside.gr, sub/inner.gr, a.gr, .gr, x.txt, an absolute-path target), each holding a unique marker binding. EVERY name of length <=3 (thorough: <=5) over the symbols {a Z 1 _ . / \\ NUL space ~ 0xC3, the characters U+2030 U+2661 U+00E9, and .gr as one symbol}, with and without a final .gr, is passed to save() then load() and in the reverse order, twice. " +
 		"After every request that was not rejected — and after every 500 rejected ones — the whole tree is re-scanned (names, sizes, content hashes) and compared with the allowed set computed by the monitor's own predicate (letters/digits/underscore + .gr in the cwd; only ./.gr in empty-only mode; ./grol.png); " +
 		"a load that makes a canary marker from outside the allowed set visible is a read violation; acceptance must be the same for save and load, for both attempts and both orders; exec/run must not resolve in restricted modes; image.save with hostile image names must only write ./grol.png. " +
 		"Thorough additionally runs a sample under strace and checks every path opened for writing. non-trivial = request that was accepted; distinct = distinct (configuration, name)."
@@ -48,7 +48,8 @@ type c17Case struct {
 	Len    int    `json:"max_len,omitempty"`
 }
 
-var c17Alphabet = []string{"a", "Z", "1", "_", ".", "/", "\\", "\x00", " ", "~", "\xc3", ".gr"}
+// "\u2030" (low byte of the code point is '0'), "\u2661" ('a') and "\u00e9" are well formed multi-byte characters
+var c17Alphabet = []string{"a", "Z", "1", "_", ".", "/", "\\", "\x00", " ", "~", "\xc3", ".gr", "\u2030", "\u2661", "\u00e9"}
 
 type c17Cfg struct {
 	name                     string
